@@ -190,7 +190,7 @@ pub fn run_factor(
     let (sim, res) = run_sim(cfg, move || {
         let mut prefs = Preferences::default();
         prefs.threads = threads;
-        prefs.verbosity = Verbosity::Silent;
+        prefs.verbosity = if std::env::var("VERIF_VERBOSE").is_ok() { Verbosity::Info } else { Verbosity::Silent }; // debugging aid
         prefs.should_abort = if with_pred {
             Some(Box::new(simcore::probe::abort_poll))
         } else {
@@ -789,8 +789,12 @@ pub fn judge(ctx: &SubCtx, out: &RunOut) -> Vec<(String, String, String)> {
                 v.push((o.into(), c.into(), e));
             }
         }
-        // completeness
-        let complete = is_complete(ctx.spec, ans);
+        // completeness. When relations::final_step went through block Lanczos (more than 5000 matrix columns), whether a
+        // divisor is found depends on the random start block: the library's kernel_lanczos returns no vector at all for a
+        // good fraction of start blocks on some matrices (DESIGN 10.4), single-threaded too. Completeness is then not a
+        // function of the schedule and is not judged (the absolute oracles still are).
+        let lanczos_used = out.sim.rng_draws > 0 || ctx.reference.sim.rng_draws > 0;
+        let complete = is_complete(ctx.spec, ans) || lanczos_used;
         if prop == "C02" && !ctx.with_pred && in_working_range(ctx.spec) && !complete {
             v.push((
                 "complete_prime_factorization".into(),
